@@ -317,7 +317,7 @@ Definition do_broadcast (init_test : bool) (c : config) (t : tid) (rcpts : list 
 (* ---------- Session.cleanUp (session.go:412-428), unsubAll (224-236) ---------- *)
 Definition do_disc_begin (c : config) (s : sid) : outcome :=
   let x := c_sess c s in
-  if s_term x then Skip else Ok (put_sess c s (set_term x)).
+  if s_term x then Skip else Ok (put_sess c s (set_detachq (set_term x) [])).     (* terminating = 1; purgeChannels *)
 
 Definition do_disc_end (c : config) (s : sid) : outcome :=
   let x := c_sess c s in
@@ -388,25 +388,25 @@ Definition w_slow_consumer : list label :=
 
 (* ---------- the driver's view (harness/runner/r_c13x.ml) ---------- *)
 (* run internal steps until the queues are empty: what the implementation does between two quiescent points.
-   [oracle_ok t] : result of topicInit / handleSubscription for topic t; [users s] : the sessions of s's user *)
-Definition internal_step (init_test : bool) (oracle_ok : tid -> bool) (users : sid -> list sid) (c : config) : option label :=
+   [init_ok q] / [reg_ok q] : result of topicInit / handleSubscription for request q; [users s] : the sessions of s's user *)
+Definition internal_step (init_ok reg_ok : req -> bool) (users : sid -> list sid) (c : config) : option label :=
   match c_join c, c_inits c, c_reg c, c_unreg c with
   | _ :: _, _, _, _ => Some (LHubJoin false)
-  | [], q :: _, _, _ => Some (LInitDone (q_topic q) (oracle_ok (q_topic q)))
-  | [], [], q :: _, _ => Some (LReg (q_topic q) (oracle_ok (q_topic q)))
+  | [], q :: _, _, _ => Some (LInitDone (q_topic q) (init_ok q))
+  | [], [], q :: _, _ => Some (LReg (q_topic q) (reg_ok q))
   | [], [], [], q :: _ => Some (LUnreg (q_topic q) (users (q_sess q)))
   | [], [], [], [] => None
   end.
 
-Fixpoint settle (fuel : nat) (init_test : bool) (oracle_ok : tid -> bool) (users : sid -> list sid) (c : config) : outcome :=
+Fixpoint settle (fuel : nat) (init_test : bool) (init_ok reg_ok : req -> bool) (users : sid -> list sid) (c : config) : outcome :=
   match fuel with
   | O => Ok c
   | S k =>
-      match internal_step init_test oracle_ok users c with
+      match internal_step init_ok reg_ok users c with
       | None => Ok c
       | Some l =>
           match exec init_test l c with
-          | Ok c1 => settle k init_test oracle_ok users c1
+          | Ok c1 => settle k init_test init_ok reg_ok users c1
           | Skip => Ok c
           | Panic site => Panic site
           end
